@@ -300,6 +300,7 @@ MAINLOOP:
 				return
 			}
 			eventNumber++
+			verifEvent(ws, ev.Name)
 			// Filter events down to those pointing at the filename
 			// and its parent (both with and without symlinks
 			// resolved.
